@@ -281,6 +281,9 @@ def run_link(name):
         expect = spec['expect']
         detail = None
         if kind == 'unsupported':
+            dead, _, _, _ = engine.solve(z3.BoolVal(False), o['pc'], timeout_ms=5000, fallback=False)
+            if dead == 'discharged':
+                continue
             recs.append(dict(name=f'{PROP}/depccg/cat.py::Category.parse/{name}#{pi}', kind='chain-link', verdict='unknown', backend='pyvc', ms=0,
                              inputs=None, detail='path not analysable: ' + val))
             continue
@@ -311,7 +314,7 @@ def run_link(name):
             want = expect[1]
             goal = same_items(I, [val], [want])
             detail = f'returned {val}'
-        verdict, backend, ms, model = engine.solve(goal, o['pc'])
+        verdict, backend, ms, model = engine.solve(goal, o['pc'], inputs=spec['inputs'])
         recs.append(dict(name=f'{PROP}/depccg/cat.py::Category.parse/{name}#{pi}', kind='chain-link', verdict=verdict, backend=backend, ms=ms,
                          inputs=engine.model_inputs(w, model, spec['inputs']), detail=detail))
         for ob in o['obligations']:
@@ -327,7 +330,7 @@ def run_job(kind, key):
         return dict(job=key, records=run_link(key))
     if kind == 'lemma':
         goal, hyps, inputs = feature_lemmas(w)[key]
-        v, b, ms, model = engine.solve(goal, hyps)
+        v, b, ms, model = engine.solve(goal, hyps, inputs=inputs)
         return dict(job=key, records=[dict(name=f'{PROP}/lemma::{key}', kind='lemma', verdict=v, backend=b, ms=ms, inputs=engine.model_inputs(w, model, inputs))])
     if kind == 'contract':
         recs, npaths = engine.verify_contract(I, table[key], PROP)
